@@ -68,7 +68,9 @@ func (self *Core) runInstruction(instruction compiler.Instruction) *value.VmInte
 		args := make([]value.Value, 0)
 		numArgs := (*self.pop()).(value.ValueInt).Inner
 		for i := 0; i < int(numArgs); i++ {
-			args = append([]value.Value{*self.pop()}, args...) // TODO: implement deepcopy here
+			// The new thread works on copies: it runs with the argument values given at the spawn,
+			// whatever the spawning thread does to its lists and objects afterwards.
+			args = append([]value.Value{*(*self.pop()).Clone()}, args...)
 		}
 
 		// TODO: how to handle the debugger
